@@ -997,7 +997,32 @@ class Interp:
                 continue
             nonempty = self._known_nonempty(itv, s0)
 
-            def step(h: State, out: Outcome, itv=itv, s0=s0, nonempty=nonempty):
+            nxt_name = "__anext__" if isinstance(node, ast.AsyncFor) else "__next__"
+            iter_cls = None
+            if itv[0] == "obj":
+                try:
+                    c_ = self.p.cls(itv[1])
+                    if self.p.find_method(c_, nxt_name) is not None:
+                        iter_cls = c_
+                except Exception:
+                    iter_cls = None
+
+            def step(h: State, out: Outcome, itv=itv, s0=s0, nonempty=nonempty, iter_cls=iter_cls, nxt_name=nxt_name):
+                if iter_cls is not None:
+                    # an explicit iterator object of a private class: each round calls its __next__ (inlined); its StopIteration
+                    # (StopAsyncIteration) leaves the loop normally, anything else it raises propagates - what a generator does
+                    sub = Outcome()
+                    entered: List[State] = []
+                    leave: List[State] = []
+                    for v_, s1 in self.call(("attr", itv, nxt_name), (), (), node, h, sub, None):
+                        entered.extend(self.assign(node.target, v_, s1, out, node))
+                    stop = "StopAsyncIteration" if nxt_name == "__anext__" else "StopIteration"
+                    for exc_, s2 in sub.exc:
+                        if exc_ == stop:
+                            leave.append(s2)
+                        else:
+                            out.exc.append((exc_, s2))
+                    return entered, leave
                 elem = ("elem", itv)
                 for e in self.client.call_raises(self, ("next", itv), node, h):
                     out.exc.append((e, h))
@@ -1147,6 +1172,10 @@ class Interp:
                     return None
             if op == "In" and a[0] == "const" and b[0] in ("set", "tuple", "list") and all(x[0] == "const" for x in b[1]):
                 return a in b[1]
+            if op == "Is" and (self._is_sentinel(a) or self._is_sentinel(b)):
+                other = b if self._is_sentinel(a) else a
+                if other[0] in ("record", "obj", "tuple", "list", "dict", "fstr", "const", "set", "partial", "lambda", "func", "cls", "closure", "comp", "binop"):
+                    return False  # a module-level `object()` sentinel is identical to nothing that was built elsewhere
             if op == "Is" and b == NONE:
                 if a[0] in ("closure", "func", "cls", "tuple", "list", "dict", "fstr", "binop", "enter", "record", "obj", "partial", "lambda", "set", "comp"):
                     return False
@@ -1337,6 +1366,13 @@ class Interp:
             if name == "_fields":
                 return ("tuple", tuple(const(n_) for n_, _y in b[2]))
             return ("attr", b, name)
+        if b == ("param", "self") and name.startswith("_") and not name.startswith("__") and self.frames and self.frames[0].self_cls is not None:
+            # a PRIVATE class-level constant of the receiver class that no method ever rebinds on the instance
+            # (`_routed_key = "SCRIPT_NAME"`, `_response_class = Response`): reading it through self is reading that constant -
+            # the hook values of a template method pulled up into a base class
+            v_ = self._class_constant(self.frames[0].self_cls, name)
+            if v_ is not None:
+                return v_
         if b[0] == "obj":
             # a class-level literal of the object's class (`chunk = 4096` in the class body)
             try:
@@ -1408,6 +1444,41 @@ class Interp:
                         out.exc.append((ex, s2))
                     res.append((("sub", b, i), s2))
         return res
+
+    def _class_constant(self, ci: ClassInfo, name: str) -> Optional[Value]:
+        cache = self.__dict__.setdefault("_clsconst", {})
+        key = (ci.fq, name)
+        if key in cache:
+            return cache[key]
+        out: Optional[Value] = None
+        try:
+            r_ = self.p.find_class_attr(ci, name)
+            if r_ is not None:
+                owner, expr = r_
+                family = [c for c in self.p.mro(ci) if isinstance(c, ClassInfo)] + self.p.subclasses(ci)
+                rebound = any(isinstance(t, ast.Attribute) and t.attr == name and isinstance(t.ctx, (ast.Store, ast.Del)) for c in family for m in dict.values(c.methods) for t in ast.walk(m.node))
+                if not rebound:
+                    if isinstance(expr, ast.Constant) and isinstance(expr.value, (str, bytes, int, bool)):
+                        out = const(expr.value)
+                    elif isinstance(expr, ast.Name):
+                        tgt = self.p.lookup_name(owner.module, expr.id)
+                        if isinstance(tgt, ClassInfo):
+                            out = ("cls", tgt.fq)
+        except Exception:
+            out = None
+        cache[key] = out
+        return out
+
+    def _is_sentinel(self, v: Value) -> bool:
+        """('global', 'mod:NAME') whose module-level definition is `NAME = object()`"""
+        if not (isinstance(v, tuple) and len(v) == 2 and v[0] == "global" and isinstance(v[1], str) and ":" in v[1]):
+            return False
+        mname, name = v[1].split(":", 1)
+        try:
+            d = self.p.module(mname).constants.get(name)
+        except Exception:
+            return False
+        return isinstance(d, ast.Call) and isinstance(d.func, ast.Name) and d.func.id == "object" and not d.args and not d.keywords
 
     def _eafp_lookup(self, e: ast.AST) -> bool:
         """is this subscript evaluated in the body of a `try` that has an `except KeyError` / `except LookupError` handler?"""
@@ -1681,6 +1752,35 @@ class Interp:
     def e_Call(self, e: ast.Call, st: State, out: Outcome):
         res = []
         fr = self.frame
+        # any(<elt> for x in <literal table of constants>) / all(...) is the or / and chain of its instances (each one a fact of its own)
+        if isinstance(e.func, ast.Name) and e.func.id in ("any", "all") and len(e.args) == 1 and not e.keywords and isinstance(e.args[0], ast.GeneratorExp) \
+                and len(e.args[0].generators) == 1 and not e.args[0].generators[0].ifs and not e.args[0].generators[0].is_async \
+                and isinstance(e.args[0].generators[0].target, ast.Name) and self._name_key(e.func.id) not in st.env:
+            g0 = e.args[0].generators[0]
+            consts = None
+            for itv_, _s in self._ev(g0.iter, st, Outcome()):
+                if itv_[0] in ("tuple", "list") and 1 <= len(itv_[1]) <= 8 and all(x[0] == "const" for x in itv_[1]):
+                    consts = [x[1] for x in itv_[1]]
+                break
+            if consts is not None:
+                import copy as _copy
+                var = g0.target.id
+
+                class _Sub(ast.NodeTransformer):
+                    def __init__(s2, val):
+                        s2.val = val
+
+                    def visit_Name(s2, n):
+                        if n.id == var and isinstance(n.ctx, ast.Load):
+                            return ast.copy_location(ast.Constant(value=s2.val), n)
+                        return n
+                insts = [_Sub(c_).visit(_copy.deepcopy(e.args[0].elt)) for c_ in consts]
+                chain = ast.copy_location(ast.BoolOp(op=ast.Or() if e.func.id == "any" else ast.And(), values=insts), e) if len(insts) > 1 else insts[0]
+                ast.fix_missing_locations(chain)
+                for n_ in ast.walk(chain):
+                    if not hasattr(n_, "_parent"):
+                        n_._parent = getattr(e, "_parent", None)  # type: ignore[attr-defined]
+                return self._ev(chain, st, out)
         # static resolution first
         target = None
         callee_vals: List[Tuple[Value, State, Any]] = []
